@@ -185,7 +185,7 @@ def auth_sim(name, num=(40, 200), depth=10):
                 extra=dict(Senders=SENDERS, AuthDepth=0), num=num, depth=depth)
 
 
-MENU_AUTH = {"items": {"auth": 14, "advance": 1, "pause": 2, "params": 2, "keeper_rate": 1, "set_legacy": 1, "migrate": 2, "instantiate": 1,
+MENU_AUTH = {"items": {"auth": 14, "advance": 1, "pause": 2, "params": 4, "handover": 4, "keeper_rate": 1, "set_legacy": 1, "migrate": 2, "instantiate": 1,
                        "bond": 1, "unbond_b": 1, "withdraw": 1, "ugi": 1},
              "amax": 10, "dts": [1, 3, 5], "probes": [], "probe_every": 6, "auth_probes": True}
 
